@@ -31,7 +31,9 @@ type Op struct {
 	// Kind: FB = forced refresh of the block side, FA = forced refresh of the
 	// allow side, S1 / S25 = scheduled refresh 1 h / 25 h after the previous
 	// step, local = change the local list file, restart = new DNSFilter over
-	// the same data directory.
+	// the same data directory, OFFB / OFFA = the block / allow list is switched
+	// off through set_url, ONB / ONA = it is switched on again through set_url
+	// (which downloads it: a refresh like any other).
 	Kind string `json:"op"`
 	// B and A are the answers of the list server for the block and the allow
 	// URL during this step.
@@ -47,6 +49,14 @@ func (o Op) String() string {
 		return "FB(" + o.B + ")"
 	case "FA":
 		return "FA(" + o.A + ")"
+	case "ONB":
+		return "set_url-enable-block(" + o.B + ")"
+	case "ONA":
+		return "set_url-enable-allow(" + o.A + ")"
+	case "OFFB":
+		return "set_url-disable-block"
+	case "OFFA":
+		return "set_url-disable-allow"
 	case "SU":
 		return "set_url-failing(" + o.B + ")"
 	case "S1", "S25":
@@ -127,6 +137,15 @@ func alphabet(quick bool, root string) (ops []Op) {
 	for _, l := range localStates {
 		ops = append(ops, Op{Root: root, Kind: "local", Local: l})
 	}
+	// Switching a list off and on again.  Switching on downloads the list, so
+	// it takes an answer; the quick tier uses the short representatives.
+	ops = append(ops, Op{Root: root, Kind: "OFFB"}, Op{Root: root, Kind: "OFFA"})
+	for _, a := range answers {
+		if quick && !in(repsShort, a) {
+			continue
+		}
+		ops = append(ops, Op{Root: root, Kind: "ONB", B: a}, Op{Root: root, Kind: "ONA", A: a})
+	}
 	ops = append(ops, Op{Root: root, Kind: "restart"})
 	return ops
 }
@@ -147,7 +166,7 @@ const (
 var contents = map[string]map[string]string{
 	urlBlock: {
 		"seed": "! Title: Block Zero\n||b0.example^\n||sh.example^\n",
-		"L1":   "! Title: Block One\r\n# comment\r\n\r\n  ||b1.example^  \r\n\t0.0.0.0 b2.example\t\n!another\n||sh.example^",
+		"L1":   "! Title: Block One\r\n# comment\r\n\r\n  ||b1.example^  \r\n##.banner\r\n\t0.0.0.0 b2.example\t\n!another\n||sh.example^",
 		"L2":   "||b3.example^\n\n||b1.example^\n   \n",
 	},
 	urlAllow: {
@@ -278,6 +297,9 @@ type mlist struct {
 	File   string `json:"file"`
 	Count  int    `json:"count"`
 	Sum    uint32 `json:"sum"`
+	// Off: the list is switched off.  Its file stays, its rules are not in
+	// force, and it is not refreshed.
+	Off bool `json:"off,omitempty"`
 }
 
 type world struct {
@@ -335,26 +357,31 @@ func newWorld(c *lib.Ctx, root string) (w *world, err error) {
 			*w.model[id] = mlist{Exists: true, File: refNormal(raw), Count: len(refRuleLines(raw)), Sum: refSum(raw)}
 		}
 	}
-	if err = w.start(nil); err != nil {
+	if err = w.start(nil, nil); err != nil {
 		return nil, err
 	}
 	return w, nil
 }
 
 // start creates the DNSFilter like home does: New, then EnableFilters(false).
-func (w *world) start(names map[int]string) (err error) {
+func (w *world) start(names map[int]string, disabled map[int]bool) (err error) {
 	if names == nil {
 		names = map[int]string{idBlock: "block list", idAllow: "allow list", idLocal: "local list"}
+	}
+	mk := func(id int, url string, white bool) filtering.FilterYAML {
+		f := filtering.VerifC15Filter(id, url, names[id], white)
+		f.Enabled = !disabled[id]
+		return f
 	}
 	conf := &filtering.Config{
 		DataDir:    w.dataDir,
 		HTTPClient: &http.Client{Transport: w.tr},
 		Filters: []filtering.FilterYAML{
-			filtering.VerifC15Filter(idBlock, urlBlock, names[idBlock], false),
-			filtering.VerifC15Filter(idLocal, w.localPath(), names[idLocal], false),
+			mk(idBlock, urlBlock, false),
+			mk(idLocal, w.localPath(), false),
 		},
 		WhitelistFilters: []filtering.FilterYAML{
-			filtering.VerifC15Filter(idAllow, urlAllow, names[idAllow], true),
+			mk(idAllow, urlAllow, true),
 		},
 		SafeFSPatterns:             []string{filepath.Join(w.localDir, "*")},
 		FilteringEnabled:           true,
@@ -508,7 +535,7 @@ func (w *world) observe() (o obs, err error) {
 func (w *world) modelVerdicts() string {
 	in := func(id int, name string) bool {
 		m := w.model[id]
-		if !m.Exists {
+		if !m.Exists || m.Off {
 			return false
 		}
 		for _, n := range refNames(m.File) {
@@ -591,6 +618,28 @@ func (w *world) step(op Op, hist []Op) (outcome string, nontrivial bool, vkey, v
 			if _, serr := w.d.VerifC14SetURL(urlBlock, urlBlock2); serr == nil {
 				panic("setaccepted")
 			}
+		case "OFFB", "OFFA", "ONB", "ONA":
+			// The list is switched off or on through the set_url handler; name
+			// and address stay as they are.
+			id, u, white, answer := idBlock, urlBlock, false, op.B
+			if op.Kind == "OFFA" || op.Kind == "ONA" {
+				id, u, white, answer = idAllow, urlAllow, true, op.A
+			}
+			on := op.Kind == "ONB" || op.Kind == "ONA"
+			if on {
+				w.tr.script[u] = answer
+			}
+			name := ""
+			for _, m := range pre.Meta {
+				if m.ID == id {
+					name = m.Name
+				}
+			}
+			// 200 = accepted, 400 = refused (the download failed); which of the
+			// two is not part of the property, the effects are.
+			if code, body := w.d.VerifC15SetURL(u, white, name, u, on); code != 200 && code != 400 {
+				panic(fmt.Sprintf("harness: set_url API answered %d %s", code, body))
+			}
 		case "S1", "S25":
 			w.tr.script[urlBlock] = op.B
 			w.tr.script[urlAllow] = op.A
@@ -609,13 +658,14 @@ func (w *world) step(op Op, hist []Op) (outcome string, nontrivial bool, vkey, v
 			}
 			w.local = op.Local
 		case "restart":
-			names := map[int]string{}
+			names, disabled := map[int]string{}, map[int]bool{}
 			for _, m := range pre.Meta {
 				names[m.ID] = m.Name
+				disabled[m.ID] = !m.Enabled
 			}
 			w.d.Close()
 			w.d = nil
-			if serr := w.start(names); serr != nil {
+			if serr := w.start(names, disabled); serr != nil {
 				panic("harness: restart: " + serr.Error())
 			}
 		}
@@ -673,6 +723,17 @@ func (w *world) step(op Op, hist []Op) (outcome string, nontrivial bool, vkey, v
 	if op.Kind == "SU" {
 		atts = append(atts, attempt{id: idBlock, answer: "set_url:" + op.B, ok: false})
 	}
+	// Switching a list on is a refresh of that list iff it was downloaded.
+	enabling := 0
+	switch {
+	case op.Kind == "ONB" && requested[urlBlock] > 0:
+		enabling = idBlock
+		atts = append(atts, attempt{id: idBlock, answer: op.B, ok: answerOK(op.B), raw: w.servedRaw(urlBlock, op.B)})
+	case op.Kind == "ONA" && requested[urlAllow] > 0:
+		enabling = idAllow
+		atts = append(atts, attempt{id: idAllow, answer: op.A, ok: answerOK(op.A), raw: w.servedRaw(urlAllow, op.A)})
+	}
+	disabling := map[string]int{"OFFB": idBlock, "OFFA": idAllow}[op.Kind]
 	refreshOp := op.Kind == "FB" || op.Kind == "FA" || op.Kind == "S1" || op.Kind == "S25"
 	if refreshOp {
 		if requested[urlBlock] > 0 {
@@ -684,7 +745,7 @@ func (w *world) step(op Op, hist []Op) (outcome string, nontrivial bool, vkey, v
 		if op.Kind == "FB" || (op.Kind != "FA" && due(idLocal)) {
 			atts = append(atts, localAttempt())
 		}
-		if (op.Kind == "FB" && requested[urlBlock] != 1) || (op.Kind == "FA" && requested[urlAllow] != 1) || requested[urlBlock] > 1 || requested[urlAllow] > 1 {
+		if (op.Kind == "FB" && requested[urlBlock] != 1 && !w.model[idBlock].Off) || (op.Kind == "FA" && requested[urlAllow] != 1 && !w.model[idAllow].Off) || requested[urlBlock] > 1 || requested[urlAllow] > 1 {
 			w.c.Note("unexpected_request_count", fmt.Sprintf("%s made requests %v", op, w.tr.log))
 		}
 	}
@@ -705,6 +766,13 @@ func (w *world) step(op Op, hist []Op) (outcome string, nontrivial bool, vkey, v
 		sameFile := pf.Exists == qf.Exists && pf.Bytes == qf.Bytes
 		sameCount := pre.API[id] == post.API[id]
 		switch {
+		case at == nil && id == disabling:
+			// Switched off: the file stays (the rule count of a list that is off
+			// is not the statement's business), its rules go out of force.
+			if !sameFile || (pf.Exists && pf.Inode != qf.Inode) {
+				return fail("disabled-list-file-changed:"+sideOf(id), fmt.Sprintf("list %d was switched off and its file changed", id), &post)
+			}
+			m.Off = true
 		case at == nil:
 			if !sameFile || !sameCount {
 				return fail("untouched-list-changed:"+sideOf(id)+":"+op.Kind, fmt.Sprintf("list %d was not refreshed in this step but its file or rule count changed", id), &post)
@@ -725,7 +793,11 @@ func (w *world) step(op Op, hist []Op) (outcome string, nontrivial bool, vkey, v
 			}
 		default:
 			norm, sum, cnt := refNormal(at.raw), refSum(at.raw), len(refRuleLines(at.raw))
-			if sum == m.Sum {
+			// A list that is switched on again is treated as new content
+			// whatever its checksum: it must be stored, counted and in force;
+			// that its file is not rewritten is not demanded across an off
+			// period.
+			if sum == m.Sum && id != enabling {
 				results[id] = "same"
 				if !sameFile || (pf.Exists && pf.Inode != qf.Inode) {
 					return fail("unchanged-content-rewritten:"+sideOf(id)+":"+at.answer,
@@ -764,6 +836,10 @@ func (w *world) step(op Op, hist []Op) (outcome string, nontrivial bool, vkey, v
 				if x.ID == id {
 					mo = x
 				}
+			}
+			if m.Off && perr == nil && sink.String() == qf.Bytes {
+				// A list that is off reports no count and no checksum.
+				continue
 			}
 			if perr != nil || r.RulesCount != post.API[id] || r.Checksum != mo.Sum || sink.String() != qf.Bytes {
 				return fail("stored-form-not-stable:"+sideOf(id),
